@@ -207,4 +207,14 @@ Section Sched.
     intros Hs H. destruct (run_sim n ls s s s' Hs (sim_refl s) H) as [b [Hb (E1 & E2 & E3 & E4 & E5 & E6)]].
     exists b. split; [exact Hb|]. unfold pm_result. rewrite <- E1, <- E4, <- E6. repeat split; reflexivity.
   Qed.
+  (* requestPart is the worker of the Fanout model: the message it delivers is the one of
+     LSend (its own result) or, for a payload once the context is done, the one of LSendC *)
+  Lemma request_part_worker (ret : backend_return V) (choice : option ekind) :
+    let own := request_part ret None in
+    request_part ret choice = own \/
+    (choice = Some ce -> request_part ret choice = MF ce /\ route own = ChP).
+  Proof.
+    destruct ret as [[r|] [e|]], choice as [c|]; simpl; auto.
+    right. intros H. inversion H; subst. auto.
+  Qed.
 End Sched.
